@@ -1403,3 +1403,143 @@ func (r *Run) measurementObjectFresh() {
 	}
 	r.Floor("I2", "participant literals with a measurement object", n, 1)
 }
+
+// ruleLoopTimers (G11): the periods of the connection's main loop — what `time.NewTicker` / `time.NewTimer` in
+// `Handle` are given — are the server's configuration: the getters that supply them return, on every path, a
+// constant or a field of the handler that is set at construction only. A period computed from what the client
+// presented (a header, a query parameter) can be zero or negative: `time.NewTicker` panics on it, outside the
+// per-message recover, after the connection was counted — the disconnect funnel never runs for it.
+func ruleLoopTimers(r *Run) {
+	if r.broken() {
+		return
+	}
+	hh := r.modelFunc("websocket.(*handler).Handle")
+	rhT := r.P.LookupType(pkgWS, "RealtimeHandler")
+	if hh == nil || rhT == nil {
+		return
+	}
+	rn, _ := rhT.Type().(*types.Named)
+	// the getters of the Handler interface whose result reaches NewTicker / NewTimer / Timer.Reset in the loop
+	getters := map[string]bool{}
+	funcs := []*Func{hh}
+	for _, f := range r.P.All {
+		if f.Obj != nil && f.Pkg == hh.Pkg && f != hh && r.onlyFrom(f, hh.Name) {
+			funcs = append(funcs, f)
+		}
+	}
+	for _, f := range funcs {
+		info := f.Info()
+		locals := map[types.Object]string{} // local := h.Handler.X()
+		ast.Inspect(f.Body, func(nd ast.Node) bool {
+			if as, ok := nd.(*ast.AssignStmt); ok && len(as.Lhs) == 1 && len(as.Rhs) == 1 {
+				if id, ok := as.Lhs[0].(*ast.Ident); ok {
+					if call, ok := ast.Unparen(as.Rhs[0]).(*ast.CallExpr); ok {
+						if g, ok := calleeObj(info, call).(*types.Func); ok && g.Type().(*types.Signature).Recv() != nil && len(call.Args) == 0 {
+							if o := objOf(info, id); o != nil {
+								locals[o] = g.Name()
+							}
+						}
+					}
+				}
+			}
+			return true
+		})
+		ast.Inspect(f.Body, func(nd ast.Node) bool {
+			call, ok := nd.(*ast.CallExpr)
+			if !ok || len(call.Args) == 0 {
+				return true
+			}
+			g, _ := calleeObj(info, call).(*types.Func)
+			if g == nil || g.Pkg() == nil || g.Pkg().Path() != "time" || !(g.Name() == "NewTicker" || g.Name() == "NewTimer" || g.Name() == "Reset" || g.Name() == "After" || g.Name() == "Tick") {
+				return true
+			}
+			ast.Inspect(call.Args[0], func(k ast.Node) bool {
+				switch v := k.(type) {
+				case *ast.CallExpr:
+					if m, ok := calleeObj(info, v).(*types.Func); ok && len(v.Args) == 0 && m.Type().(*types.Signature).Recv() != nil {
+						getters[m.Name()] = true
+					}
+				case *ast.Ident:
+					if nm, ok := locals[info.Uses[v]]; ok {
+						getters[nm] = true
+					}
+				}
+				return true
+			})
+			return true
+		})
+	}
+	n := 0
+	var names []string
+	for nm := range getters {
+		names = append(names, nm)
+	}
+	sort.Strings(names)
+	for _, nm := range names {
+		g := r.P.LookupFunc(pkgWS, "RealtimeHandler", nm)
+		gd := r.P.Funcs[g]
+		if gd == nil || gd.Body == nil {
+			continue
+		}
+		for _, path := range r.Paths(gd) {
+			path := path
+			r.at(&path)
+			ret := r.retCanon(gd, &path)
+			if len(ret) != 1 {
+				continue
+			}
+			n++
+			ok := false
+			why := ret[0]
+			switch {
+			case strings.HasPrefix(ret[0], "const:") || strings.HasPrefix(ret[0], "lit:"):
+				ok = true
+			case strings.HasPrefix(ret[0], "recv.") && !strings.ContainsAny(ret[0][5:], ".([ "):
+				if fv := r.P.LookupField(pkgWS, "RealtimeHandler", ret[0][5:]); fv != nil && rn != nil {
+					ok = !r.assignedAfterConstruction(fv)
+					if !ok {
+						why = ret[0] + ", which is assigned after construction"
+					}
+				}
+			}
+			r.CheckT("G11", gd.Name+":period-from-configuration", ok, gd.Body.Pos(), &path,
+				"%s supplies a period of the connection's main loop and returns %s: not a constant or a field set at construction only. A period the client can influence may be zero or negative, and the ticker / timer made from it panics outside the per-message recover", gd.Name, why)
+		}
+	}
+	r.Floor("G11", "returns of the getters that supply the main loop's periods", n, 2)
+}
+
+// assignedAfterConstruction: some statement of the repository assigns to (or increments) a selection of the
+// field; values given in composite literals are construction.
+func (r *Run) assignedAfterConstruction(fv *types.Var) bool {
+	for _, fn := range r.P.All {
+		if fn.Body == nil {
+			continue
+		}
+		found := false
+		ast.Inspect(fn.Body, func(nd ast.Node) bool {
+			check := func(x ast.Expr) {
+				if se, ok := ast.Unparen(x).(*ast.SelectorExpr); ok && r.P.selField(fn.Info(), se) == fv {
+					found = true
+				}
+			}
+			switch v := nd.(type) {
+			case *ast.AssignStmt:
+				for _, l := range v.Lhs {
+					check(l)
+				}
+			case *ast.IncDecStmt:
+				check(v.X)
+			case *ast.UnaryExpr:
+				if v.Op == token.AND {
+					check(v.X) // its address is taken: anything may write it
+				}
+			}
+			return !found
+		})
+		if found {
+			return true
+		}
+	}
+	return false
+}
